@@ -10,10 +10,12 @@ def treeById (k : Nat) : List Int × List Nat :=
   | 0 => (Gen.Tables.KEYFRAME_YMODE_TREE, Gen.Tables.KEYFRAME_YMODE_PROBS)
   | 1 => (Gen.Tables.KEYFRAME_UV_MODE_TREE, Gen.Tables.KEYFRAME_UV_MODE_PROBS)
   | 2 => (Gen.Tables.SEGMENT_ID_TREE, [255, 255, 255])
-  | _ => (Gen.Tables.KEYFRAME_BPRED_MODE_TREE, (Gen.Tables.KEYFRAME_BPRED_MODE_PROBS.headD []).headD [])
+  | 3 => (Gen.Tables.KEYFRAME_BPRED_MODE_TREE, (Gen.Tables.KEYFRAME_BPRED_MODE_PROBS.headD []).headD [])
+  | _ => (Gen.Tables.DCT_TOKEN_TREE, List.replicate 11 128)
 
 inductive Tok where
   | bool (p : Nat) | flag | literal (n : Nat) | signed (n : Nat) | tree (k : Nat)
+  | treeP (k : Nat) (probs : List Nat)     -- tree shape k with caller-supplied probabilities
 
 def parseTok (s : String) : Option Tok :=
   match s.toList with
@@ -22,15 +24,24 @@ def parseTok (s : String) : Option Tok :=
   | 'l' :: r => (String.ofList r).toNat?.map Tok.literal
   | 's' :: r => (String.ofList r).toNat?.map Tok.signed
   | 't' :: r => (String.ofList r).toNat?.map Tok.tree
+  | 'T' :: r =>
+    match (String.ofList r).splitOn ":" with
+    | [k, ps] => do
+      let k ← k.toNat?
+      let ps ← (ps.splitOn ".").mapM (·.toNat?)
+      some (Tok.treeP k ps)
+    | _ => none
   | _ => none
 
 def toM : Tok → Arith.Req
   | .bool p => .bool p | .flag => .flag | .literal n => .literal n | .signed n => .signed n
   | .tree k => let (t, p) := treeById k; .tree t p
+  | .treeP k ps => let (t, _) := treeById k; .tree t ((List.range (t.length / 2)).map fun i => ps.getD i 128)
 
 def toS : Tok → BoolDec.Req
   | .bool p => .bool p | .flag => .flag | .literal n => .literal n | .signed n => .signed n
   | .tree k => let (t, p) := treeById k; .tree t p
+  | .treeP k ps => let (t, _) := treeById k; .tree t ((List.range (t.length / 2)).map fun i => ps.getD i 128)
 
 def showRun (l : List (Int × Bool)) : String :=
   if l.isEmpty then "-" else ",".intercalate (l.map fun (v, e) => toString v ++ (if e then "!" else ""))
